@@ -391,15 +391,16 @@ static int stressMain(unsigned long long seed, int jobs, int opsPerThread) {
         std::unique_ptr<SpecializedRecordTable<0, 1, 2, 3>> rt;
         std::vector<std::string> initSyms;
         if (sym) {
-            if (initial > 0 && !viaSetNumLanes) {
-                // capacity = number of initial symbols
-                if (initial == 1) {
-                    st.reset(new SymbolTableImpl((std::size_t)lanes, {"init0"}));
-                    initSyms = {"init0"};
-                } else {
-                    st.reset(new SymbolTableImpl((std::size_t)lanes, {"init0", "init1"}));
-                    initSyms = {"init0", "init1"};
-                }
+            if (initial > 0) {
+                // capacity = number of initial symbols: the next symbol makes the table grow.  With setNumLanes this is what
+                // synthesised programs do: symTable({constants...}) and then setNumLanes(threads)
+                std::initializer_list<std::string> one = {"init0"}, two = {"init0", "init1"};
+                initSyms = initial == 1 ? std::vector<std::string>(one) : std::vector<std::string>(two);
+                if (viaSetNumLanes) {
+                    st.reset(initial == 1 ? new SymbolTableImpl(one) : new SymbolTableImpl(two));
+                    st->setNumLanes((std::size_t)lanes);
+                } else
+                    st.reset(initial == 1 ? new SymbolTableImpl((std::size_t)lanes, one) : new SymbolTableImpl((std::size_t)lanes, two));
             } else if (viaSetNumLanes) {
                 st.reset(new SymbolTableImpl());  // as the interpreter engine does
                 st->setNumLanes((std::size_t)lanes);
